@@ -23,8 +23,8 @@
       invariant `(G noAtoms F n).I` = `invG` is the structural one (per EditDistance: `EdInv`, per EditCollection:
       `CollInv`, per MultiSetEdit: `MsInv`/`WmInv`, nesting height ≤ n, loop bounds < F).  No class is left abstract
       (`isAtom` is constantly false; `AtomHyp` survives only as a trivially true parameter of the induction).
-      Missing for DictNode documents: that `mkMs` (the fresh MultiSetEdit of `mkEdit`) satisfies `MsInv`, i.e. the
-      solver oracle's admissibility `AssignOK` for the recorded answers (size `min(nf, nt)`), see NOTES_C04.
+    * `engine_protocol_docs` (+ `mkEdit_invariant_dict`): the FULL statement for every pair of DOCUMENTS and every
+      option set; with key edits (MultiSetEdit) for every solver oracle with full-size answers (`OrcFull`).
     * per class: `const`/`kvp`/`str` (inside `engine_step`), `fixedLen_protocol`, `repeat_until_tightened_terminates`,
       `matcher_protocol`, `multiset_protocol` (see below), `editCollection_protocol` (bounds never invalid and never an ill-formed Range, the `while True` loop of
       `tighten_bounds` terminates, True ⇒ strictly inside the starting bounds, False ⇒ single value),
@@ -43,6 +43,7 @@ import GtModel.Proofs.LazyRun
 import GtModel.Proofs.LazyEdStatic
 import GtModel.Proofs.LazyMkC
 import GtModel.Proofs.LazyMsC
+import GtModel.Proofs.LazyMkD
 
 namespace GtModel.C04
 open GtModel.Lazy
@@ -235,6 +236,33 @@ theorem engine_protocol (q : Bool) (o : Opts) (orc : Orc) (f t : Tree) (hf : f.n
   ⟨muG noAtoms (mkEdit o orc [] [] f t) + 1, height (mkEdit o orc [] [] f t),
     engine_protocol_every_machine q _ (Nat.succ_pos _) _,
     mkEdit_invariant o orc f t hf hkf hkt ht _ _ (Nat.lt_succ_self _) (Nat.le_refl _)⟩
+
+/-- the machine of `from.edits(to)` satisfies the structural invariant also with MultiSetEdits: trees without
+    fixed-key dictionaries (the DEFAULT dict strategy builds only `DictNode`s) and a solver oracle whose recorded
+    answers have full size (`OrcFull`: every answer pairs `min(nf, nt)` nodes — what a min-weight matching does;
+    unrecorded matchers get the identity).  No hypothesis on keys or sizes: the static-bound defect D24 does not
+    exist here, a MultiSetEdit has no static upper bound. -/
+theorem mkEdit_invariant_dict (o : Opts) (orc : Orc) (f t : Tree) (hf : f.noFdict = true) (horc : OrcFull orc.assign)
+    (F n : Nat) (hF : muG noAtoms (mkEdit o orc [] [] f t) < F) (hn : height (mkEdit o orc [] [] f t) ≤ n) :
+    (G noAtoms F n).I (mkEdit o orc [] [] f t) :=
+  ⟨(mkEdit_invP noAtoms o orc horc f hf t [] []).inv F hF, hn⟩
+
+/-- FULL STATEMENT for every pair of DOCUMENTS (as `json.build_tree` builds them): the machine of
+    `build o f`.edits(`build o t`) obeys the protocol — with key edits (default, `DictNode` / MultiSetEdit) for every
+    full-size solver oracle and every `make_distinct` oracle; without key edits (`FixedKeyDictNode`) for distinct keys
+    and `t` in the domain `fkOK` of the static bound (D24). -/
+theorem engine_protocol_docs (q : Bool) (o : Opts) (orc : Orc) (f t : Doc) (hkf : f.KeysDistinct) (hkt : t.KeysDistinct)
+    (horc : OrcFull orc.assign) (hdom : o.ake = false → (build o t).fkOK = true) :
+    ∃ F n, Protocol (mkOps q F n) (G noAtoms F n) ∧
+      (G noAtoms F n).I (mkEdit o orc [] [] (build o f) (build o t)) := by
+  refine ⟨muG noAtoms (mkEdit o orc [] [] (build o f) (build o t)) + 1,
+    height (mkEdit o orc [] [] (build o f) (build o t)), engine_protocol_every_machine q _ (Nat.succ_pos _) _, ?_⟩
+  cases hake : o.ake with
+  | true =>
+    exact mkEdit_invariant_dict o orc _ _ (build_noFdict o hake f) horc _ _ (Nat.lt_succ_self _) (Nat.le_refl _)
+  | false =>
+    exact mkEdit_invariant o orc _ _ (build_noDict o hake f) (build_kd o f hkf) (build_kd o t hkt) (hdom hake) _ _
+      (Nat.lt_succ_self _) (Nat.le_refl _)
 
 section Observed
 variable {ops : Ops} {g : Ghost}
